@@ -24,6 +24,10 @@ fn main() {
         a5verif::checks::purity::sched_child(&args[3], &args[4]);
         std::process::exit(0);
     }
+    if prop == "C13" && args[2] == "--race-child" {
+        a5verif::checks::purity::race_child(&args[3]);
+        std::process::exit(0);
+    }
     if prop == "C14" && args[2] == "--probe-worker" {
         a5verif::checks::total::worker_main(&args[3], args[4].parse().unwrap(), args[5].parse().unwrap());
         std::process::exit(0);
